@@ -437,12 +437,21 @@ pub fn out_dir() -> String {
     std::env::var("VP_OUT_DIR").unwrap_or_else(|_| VERIF_DIR.to_string())
 }
 
+/// "checked" (debug assertions + overflow checks on) or "unchecked".
+pub fn build_tag() -> &'static str {
+    if cfg!(debug_assertions) {
+        "checked"
+    } else {
+        "unchecked"
+    }
+}
+
 pub fn write_replay(id: &str, v: &Violation) -> String {
     let fp = fingerprint(&(&v.phase, &v.sig, &v.case));
     let dir = format!("{}/replays", out_dir());
     let _ = std::fs::create_dir_all(&dir);
     let path = format!("{dir}/{id}-{:016x}.json", fp);
-    let body = json!({"property_id": id, "phase": v.phase, "sig": v.sig, "msg": v.msg, "case": v.case});
+    let body = json!({"property_id": id, "phase": v.phase, "sig": v.sig, "msg": v.msg, "case": v.case, "build": build_tag()});
     let _ = std::fs::write(&path, serde_json::to_string_pretty(&body).unwrap());
     path
 }
@@ -487,7 +496,7 @@ pub fn write_evidence(cx: &Cx, meta: &Meta, acc: &Acc, wall_s: f64, extra: Value
         "wall_s": (wall_s * 1000.0).round() / 1000.0,
         "violations": acc.violations.len(),
     });
-    let dir = format!("{}/evidence", out_dir());
+    let dir = std::env::var("VP_EVIDENCE_DIR").unwrap_or_else(|_| format!("{}/evidence", out_dir()));
     let _ = std::fs::create_dir_all(&dir);
     let path = format!("{dir}/{}.json", cx.id);
     let tmp = format!("{path}.tmp");
